@@ -219,6 +219,75 @@ theorem path_shape (its : List (Iter ℝ)) (dmin dmax : ℝ) (hwf : WFTrace [roo
       (pathTo (generate its) (generate its).length i) :=
   pathTo_shape _ (tree_rooted_acyclic_cost_consistent its dmin dmax hwf hacc).1 _ i hi (le_of_lt hi)
 
+/-! ### the stored cost is the length of the path to the root -/
+
+/-- the oracle's distance answer stored on the link from node j to its parent -/
+noncomputable def edgeOf (tree : List N) (j : Nat) : ℝ := ((tree[j]?).map Node.edge).getD 0
+
+theorem pathTo_ne_nil (tree : List N) (fuel i : Nat) : pathTo tree fuel i ≠ [] := by
+  cases fuel with
+  | zero => simp [pathTo]
+  | succ fuel =>
+    unfold pathTo
+    split <;> simp
+
+/-- **path cost**: in any tree satisfying the invariant, the cost stored on node i is the root's cost plus the sum of the
+    link distances along the parent walk from i (the walk the path extraction performs) — so costs compared by the
+    choose-parent step are path lengths, for every tree size and walk length -/
+theorem pathTo_cost (tree : List N) (h : TreeInv tree) (fuel i : Nat) (hi : i < tree.length) (hf : i ≤ fuel) :
+    costOf tree i = costOf tree 0 + (((pathTo tree fuel i).tail).map (edgeOf tree)).sum := by
+  induction fuel generalizing i with
+  | zero =>
+    have : i = 0 := by omega
+    subst this
+    simp [pathTo]
+  | succ fuel ih =>
+    unfold pathTo
+    by_cases h0 : i = 0
+    · subst h0
+      obtain ⟨⟨r, hr0, hrp⟩, _⟩ := h
+      simp [hr0, hrp]
+    · obtain ⟨n, hn⟩ : ∃ n, tree[i]? = some n := ⟨tree[i], List.getElem?_eq_getElem hi⟩
+      obtain ⟨p, hp, hpi, hcost⟩ := h.2 i n hn (Nat.pos_of_ne_zero h0)
+      have hb : (tree[i]?).bind Node.parent = some p := by rw [hn]; exact hp
+      rw [hb]
+      have ihp := ih p (lt_trans hpi hi) (by omega)
+      have hne := pathTo_ne_nil tree fuel p
+      have hci : costOf tree i = n.cost := by unfold costOf; rw [hn]; rfl
+      have hei : edgeOf tree i = n.edge := by unfold edgeOf; rw [hn]; rfl
+      rw [List.tail_append_of_ne_nil hne, List.map_append, List.sum_append, hci, hcost, ihp]
+      simp only [List.map_cons, List.map_nil, List.sum_cons, List.sum_nil, hei]
+      ring
+
+/-- …for the generated tree, whose root has cost 0: stored cost = sum of the link distances to the root -/
+theorem generated_cost_is_path_length (its : List (Iter ℝ)) (dmin dmax : ℝ) (hwf : WFTrace [root] its)
+    (hacc : ∀ it ∈ its, ¬ rejected dmin dmax it) (i : Nat) (hi : i < (generate its).length) :
+    costOf (generate its) i =
+      (((pathTo (generate its) (generate its).length i).tail).map (edgeOf (generate its))).sum := by
+  have h := (tree_rooted_acyclic_cost_consistent its dmin dmax hwf hacc).1
+  have := pathTo_cost _ h _ i hi (le_of_lt hi)
+  have h0 : costOf (generate its) 0 = 0 := by
+    have hg : ∀ (l : List (Iter ℝ)) (t : List N), (l.foldl RRT.insert t)[0]? = (t ++ [])[0]? ∨ t = [] := by
+      intro l
+      induction l with
+      | nil => intro t; left; simp
+      | cons x xs ihl =>
+        intro t
+        by_cases ht : t = []
+        · right; exact ht
+        · left
+          simp only [List.foldl_cons]
+          rcases ihl (insert t x) with h1 | h1
+          · rw [h1, insert_eq]
+            cases t with
+            | nil => exact absurd rfl ht
+            | cons a as => simp
+          · rw [insert_eq] at h1; simp at h1
+    rcases hg its [root] with h1 | h1
+    · unfold costOf generate; rw [h1]; simp [root]
+    · simp at h1
+  rw [this, h0, zero_add]
+
 /-! non-vacuity: a one-iteration trace satisfying the hypotheses -/
 noncomputable def demoIt : Iter ℝ := { nearest := 0, dist0 := 1, coll0 := false, cands := [⟨0, 1, false⟩] }
 example : WFTrace [root] [demoIt] := by
